@@ -159,6 +159,11 @@ func TestWorker(t *testing.T) {
 	if err := json.Unmarshal(raw, &job); err != nil {
 		t.Fatal(err)
 	}
+	for _, pn := range job.Profiles {
+		if base, _ := strings.CutSuffix(pn, "+deep"); profiles[base] == nil {
+			t.Fatalf("MACHINERY: unknown profile %q in job", pn)
+		}
+	}
 	MeasureInternalCost()
 	f, err := os.OpenFile(job.Out, os.O_CREATE|os.O_WRONLY|os.O_APPEND, 0o644)
 	if err != nil {
